@@ -1,3 +1,2 @@
 SPECIFICATION TraceSpec
 CHECK_DEADLOCK FALSE
-CONSTANT Wide = FALSE
